@@ -108,7 +108,7 @@ for _k, _v in EXTRA_MODULES.items():
 
 # the number of property theorems (namespace Bch.Props.<ID>) each check must find; fewer means theorems were deleted or
 # renamed away (more is fine)
-MIN_THEOREMS = {"C01": 28, "C02": 19, "C03": 17, "C04": 49, "C05": 20, "C06": 15, "C07": 67, "C08": 161, "C09": 30, "C10": 50, "C11": 29, "C12": 20, "C13": 22, "C14": 36, "C15": 28, "C16": 47, "C17": 45, "C18": 26, "C19": 29, "C20": 29}
+MIN_THEOREMS = {"C01": 28, "C02": 19, "C03": 17, "C04": 49, "C05": 20, "C06": 15, "C07": 67, "C08": 161, "C09": 38, "C10": 50, "C11": 29, "C12": 20, "C13": 22, "C14": 36, "C15": 50, "C16": 47, "C17": 45, "C18": 35, "C19": 29, "C20": 29}
 for _k, _v in MIN_THEOREMS.items():
     PROPS[_k]["min_theorems"] = _v
 
@@ -134,7 +134,7 @@ for _k, _v in TIES.items():
 SHARED = {
     "C01": ["C02"], "C02": ["C01"], "C03": ["C02"],
     "C04": ["C15", "C05"], "C05": ["C04", "C15"], "C15": ["C04", "C05"],
-    "C08": ["C09", "C12", "C13"],
+    "C08": ["C09", "C12", "C13", "C16"],
     "C09": ["C10", "C20"], "C10": ["C09"], "C20": ["C09"],
     "C11": ["C12"], "C12": ["C11"],
     "C13": ["C14"], "C14": ["C13"],
